@@ -194,13 +194,15 @@ func (c *converter) ProgramEnd() error {
 			c.callFuncString(sliceLenGetHelper, []string{}, "!%1!"), // Get current slice length.
 			`set "_i=!_len!"`,
 			":_sah_loop",
-			`if "!_i!" lss "%2" (`,
+			`if !_i! lss %2 (`, // Compare numerically (quoted operands are compared as strings: "9" lss "10" is false).
 			c.sliceAssignmentString("!%1!", "!_i!", "%3", false),
 			`set /A "_i=!_i!+1"`,
 			"goto :_sah_loop",
 			") else (",
+			`if !_len! leq %2 (`, // Only grow the slice, an assignment within the slice keeps its length.
 			`set /A "_len=%2+1"`,
 			c.callFuncString(sliceLenSetHelper, []string{}, "!%1!", "!_len!"),
+			")",
 			")",
 			c.sliceAssignmentString("!%1!", "%2", fmt.Sprintf("!%s!", funcArgVar(0)), false),
 		)
